@@ -8,6 +8,7 @@ unordered, duplicate-free and complete; the order is checked by the corresponden
 a hash-map iteration (compared as a set).
 -/
 import PubgrubProofs.OfflineLaws
+import PubgrubProofs.ProviderLaws
 
 set_option linter.unusedSectionVars false
 set_option warn.classDefReducibility false
@@ -48,5 +49,15 @@ theorem C18_prioritize [VersionSet S V] (o : Offline P S V) (p1 p2 : P) (s1 s2 :
     cmpReverse (matchingCount o p1 s1) (matchingCount o p2 s2) = .gt ∧
     matchingCount o p1 s1 = ((versionsOf o p1).filter (fun v => VersionSet.contains s1 v)).length :=
   ⟨prioritize_run o p1 p2 s1 s2 h, matchingCount_spec o p1 s1⟩
+
+/-- versions(p), modelled as the ascending sort of the added versions (the real store is a `BTreeMap`),
+is strictly ascending, enumerates exactly what was added, and `choose_version` is literally
+`keys().rev().find(contains)` over it -/
+theorem C18_versions_ascending {V : Type} [LinearOrder V] [VersionSet S V]
+    (ops : List (AddOp P S V)) (p : P) (v : V) (s : S) :
+    (sortedVersions (run ops) p).Pairwise (· < ·) ∧
+    (v ∈ sortedVersions (run ops) p ↔ ∃ op ∈ ops, op.p = p ∧ op.v = v) ∧
+    chooseVersion (run ops) p s = (sortedVersions (run ops) p).reverse.find? (fun v => VersionSet.contains s v) :=
+  ⟨sortedVersions_sorted ops p, mem_sortedVersions ops p v, chooseVersion_eq_find_rev ops p s⟩
 
 end Pubgrub.C18
